@@ -331,8 +331,19 @@ func genTable(r *simrt.RNG, used map[string]bool, srs gpkgh.SRS, t tms20.TileMat
 	pk := gpkgh.Column{Name: ident(r, cused), Type: "INTEGER", PK: true, NotNull: r.Chance(0.5), AutoInc: r.Chance(0.4)}
 	var attrs []gpkgh.Column
 	for i, n := 0, r.Intn(5); i < n; i++ {
-		typ := []string{"INTEGER", "REAL", "TEXT", "DOUBLE", "MEDIUMINT", "TEXT(20)", "Integer", "text", "Real", "DOUBLE PRECISION", "VARCHAR(10)", "BLOB"}[r.Intn(12)]
-		attrs = append(attrs, gpkgh.Column{Name: ident(r, cused), Type: typ, NotNull: r.Chance(0.3)})
+		typ := []string{"INTEGER", "REAL", "TEXT", "DOUBLE", "MEDIUMINT", "TEXT(20)", "Integer", "text", "Real", "DOUBLE PRECISION", "VARCHAR(10)", "BLOB", "BOOLEAN", "DATE", "DATETIME"}[r.Intn(15)]
+		col := gpkgh.Column{Name: ident(r, cused), Type: typ, NotNull: r.Chance(0.3)}
+		if r.Chance(0.12) {
+			switch strings.ToUpper(strings.Split(typ, "(")[0]) {
+			case "INTEGER", "MEDIUMINT", "BOOLEAN":
+				col.Default = []string{"0", "1", "-7"}[r.Intn(3)]
+			case "REAL", "DOUBLE", "DOUBLE PRECISION":
+				col.Default = []string{"0.5", "1e3", "0"}[r.Intn(3)]
+			case "TEXT", "VARCHAR":
+				col.Default = []string{"''", "'n/a'", "'0'"}[r.Intn(3)]
+			}
+		}
+		attrs = append(attrs, col)
 	}
 	if otherGeom != "" && !cused[strings.ToLower(otherGeom)] && len(attrs) > 0 {
 		// an attribute column named like the geometry column of another table
@@ -394,6 +405,12 @@ func genTable(r *simrt.RNG, used map[string]bool, srs gpkgh.SRS, t tms20.TileMat
 					v = int64(r.Uint64()>>2) - (1 << 61) // beyond 2^53
 				}
 				row.Vals = append(row.Vals, gpkgh.IntVal(v))
+			case "BOOLEAN":
+				row.Vals = append(row.Vals, gpkgh.IntVal(int64(r.Intn(2))))
+			case "DATE":
+				row.Vals = append(row.Vals, gpkgh.TextVal(fmt.Sprintf("20%02d-%02d-%02d", r.Intn(30), 1+r.Intn(12), 1+r.Intn(28))))
+			case "DATETIME":
+				row.Vals = append(row.Vals, gpkgh.TextVal(fmt.Sprintf("20%02d-%02d-%02dT%02d:%02d:%02d.%03dZ", r.Intn(30), 1+r.Intn(12), 1+r.Intn(28), r.Intn(24), r.Intn(60), r.Intn(60), r.Intn(1000))))
 			case "BLOB":
 				b := make([]byte, 1+r.Intn(12))
 				for k := range b {
